@@ -2,7 +2,7 @@
     This file holds only the exported statements. *)
 From Coq Require Import List Bool Arith ZArith.
 Import ListNotations.
-Require Import Nib.C06.Model Nib.C06.Spec Nib.C06.Proofs Nib.C06.ProofsExact Nib.C06.ProofsSpell.
+Require Import Nib.C06.Model Nib.C06.Spec Nib.C06.Proofs Nib.C06.ProofsExact Nib.C06.ProofsSpell Nib.C06.ProofsReentry.
 Local Open Scope Z_scope.
 
 (** After EVERY transaction of EVERY history (any sequence of funding, ERC20 deployments of any
@@ -157,3 +157,33 @@ Theorem C06_rewrite_after_guard_refuted :
               map m_den (reg (run_with canon_ibc_hash rewrite_after_guard init ops)) = [DIbc 0; DIbc 0]%nat.
 Proof. exists ex_respell. split; [exact rewrite_after_guard_refuted | exact rewrite_after_guard_two_mappings]. Qed.
 Print Assumptions C06_rewrite_after_guard_refuted.
+
+(** Bridge messages reached THROUGH THE WASM PRECOMPILE (an EVM contract calls Wasm.execute on a CosmWasm contract that
+    re-dispatches MsgConvertCoinToEvm / MsgCreateFunToken in the middle of the EVM transaction) are operations of the
+    histories [C06_backing_invariant] quantifies over ([WasmConvert], [WasmCreateCoin], [WasmCreateErc20]; a bank MsgSend
+    dispatched that way is [BankMsgSend]).  They are refused, in whatever frame, and change nothing. *)
+Theorem C06_wasm_dispatch_refused : forall s w d x to t f,
+  step s (Framed f (WasmConvert w d x to)) = (s, match f with FInnerRevert | FSwallow => true | _ => false end) /\
+  step s (Framed f (WasmCreateCoin w d)) = (s, match f with FInnerRevert | FSwallow => true | _ => false end) /\
+  step s (Framed f (WasmCreateErc20 w t)) = (s, match f with FInnerRevert | FSwallow => true | _ => false end).
+Proof. exact wasm_dispatch_refused. Qed.
+Print Assumptions C06_wasm_dispatch_refused.
+
+(** For every configuration of the re-entry guards in which the precompile context is marked and both handlers refuse on
+    it (what Gen/C06Facts.v must report for the current tree), the machine is the model and the property holds for every
+    history. *)
+Theorem C06_guarded_reentry_safe : forall (g : reentry_guards) (ops : list op),
+  rg_ctx_marked g && rg_convert_refused g = true -> rg_ctx_marked g && rg_create_refused g = true ->
+  views_rg g init ops = views init ops /\ P (views_rg g init ops).
+Proof.
+  intros g ops H1 H2. assert (G : guarded g) by (split; assumption).
+  split; [apply views_rg_guarded; exact G | apply guarded_reentry_safe; exact G].
+Qed.
+Print Assumptions C06_guarded_reentry_safe.
+
+(** … and it is FALSE without them: the nested handler commits the running StateDB, the ERC20 minted by a nested conversion
+    survives the revert of its frame while the escrow transfer does not (totalSupply 1100 > escrow 1000), and sendToBank
+    then pays the unbacked tokens out of the honest escrow. *)
+Theorem C06_unguarded_reentry_refuted : exists ops, ~ P (views_rg no_reentry_guards init ops).
+Proof. exists ex_reentry. exact unguarded_reentry_refuted. Qed.
+Print Assumptions C06_unguarded_reentry_refuted.
